@@ -179,7 +179,9 @@ struct C18Model : mcx::Model {
         case GETBANK_BAD: { OPN2_BankId id; id.percussive = (OPN2_UInt8)o.b; id.msb = 0; id.lsb = (OPN2_UInt8)o.a; OPN2_Bank bk; must_fail(opn2_getBank(d, &id, OPNMIDI_Bank_Create, &bk), "bank id out of range"); break; }
         case PLAYPROBE: { if(!R.song) break; memset(g_hook_calls, 0, sizeof g_hook_calls); opn2_positionRewind(d); short buf[4096]; for(int k = 0; k < 22; k++) opn2_play(d, 4096, buf);
             if(R.hook[0] && g_hook_calls[0] == 0) { v.fail("C18/hook-not-firing/raw", "raw event hook registered but not called during playback"); return; }
-            if(R.hook[1] && g_hook_calls[1] == 0) { v.fail("C18/hook-not-firing/note", "note hook registered but not called during playback"); return; }
+            // the probe song has one note per track: track 0 on channel 0, track 1 on channel 3, track 2 on channel 9; a note reaches the synthesizer (and the note hook) only from an enabled/solo track on an enabled channel
+            bool some_note = false; { static const int TCH[3] = {0, 3, 9}; for(int t = 0; t < 3 && t < R.tracks; t++) { bool ten = R.solo >= 0 ? R.solo == t : !R.trackOff[(size_t)t]; if(ten && !R.chanOff[TCH[t]]) some_note = true; } }
+            if(R.hook[1] && some_note && g_hook_calls[1] == 0) { v.fail("C18/hook-not-firing/note", "note hook registered but not called during playback"); return; }
             if(R.hook[4] && !R.loopEn && g_hook_calls[4] == 0 && R.tempo >= 1.0) { v.fail("C18/hook-not-firing/loopEnd", "loop-end hook registered but not called when the song ended"); return; }
             opn2_positionRewind(d); opn2_panic(d);
             break; }
